@@ -86,7 +86,7 @@ PROPS = {
     'C10': {
         'verus': [r'^(date|timestamp|oracle) :: impl Trunc for (Date|Timestamp) / fn trunc_',
                   r'^date :: fn (current_date|sub_to_date)$',
-                  r'^spec :: proof fn lemma_(iso_year_jan4|trunc_)', r'^laws :: fn law_c10_'],
+                  r'^spec :: proof fn lemma_(iso_year_jan4|trunc_|iso_|dn_le_lex|civil_of)', r'^laws :: fn law_c10_'],
         'kinds': FUNCTIONAL,
     },
     'C11': {
